@@ -93,6 +93,16 @@ def tree_input_shapes(rnd, tier, ty):
     reps = 9000 if tier == "quick" else 20000
     out.append(("long_periodic", Seqn.from_runs([([a, b2], reps), ([c, a, a], 700), ([b2], 8193), ([0, c], 50)])))
     out.append(("long_skewed", Seqn.from_values(skewed_seq(rnd, 9000, list(range(min(T, 40) + 1)), 1.5))))
+    # a symbol with exactly 8192*m occurrences, then whole superblocks without it, then a few more
+    # (select samples: the (8192*m)-th occurrence is the last one before a long gap)
+    for m in ([1] if tier == "quick" else [1, 2]):
+        xa, xb, xc = min(T, 1), min(T, 4), min(T, 13)
+        gap = rnd.choice([9000, 13000]) if tier == "quick" else 40000
+        out.append(("occ_gap%d" % m, Seqn.from_runs([([xa], 8192 * m), ([xb, 8 % (T + 1)], gap // 2), ([xa], 3), ([xc], 5)])))
+        out.append(("occ_exact%d" % m, Seqn.from_runs([([xa, xb], 4096 * m), ([xb], 700), ([xa], 4096 * m), ([xc, xb], 2100)])))
+    # levels whose length is an exact multiple of the prefetch sampling period, at least two levels
+    for n in (2048, 4096) if tier == "quick" else (2048, 4096, 6144, 8192):
+        out.append(("pfs_len%d" % n, Seqn.from_values(rand_seq(rnd, n, list(range(min(T, 20) + 1))))))
     if tier == "thorough":
         out.append(("huge_runs", Seqn.from_runs([([0], 300000), ([min(T, 77)], 1), ([1, 2, 3], 100000), ([min(T, 255)], 65537)])))
     return out
@@ -172,6 +182,10 @@ def huff_input_shapes(rnd, tier, ty, binary=False, deep=False):
     big = min(T, rnd.choice([1000, 5000])) if ty != "u8" else 255
     alph = sorted(set(rnd.randrange(big + 1) for _ in range(60)))
     out.append(("big_values", Seqn.from_values(skewed_seq(rnd, 600, alph, 1.2) + alph)))
+    # a symbol with exactly 8192 occurrences (the last one is the 8192-th at its levels), a long gap, then others
+    out.append(("occ_exact8192", Seqn.from_runs([([min(T, 7)], 8192), ([min(T, 2), min(T, 9)], 5000), ([min(T, 3)], 1200), ([min(T, 9)], 16384 - 5000)])))
+    for n in (2048, 4096):
+        out.append(("pfs_len%d" % n, Seqn.from_values(skewed_seq(rnd, n, list(range(min(T, 12) + 1)), 1.4))))
     nlong = 3 * 2048 + 99 if tier == "quick" else 40000
     out.append(("long_skewed", Seqn.from_values(skewed_seq(rnd, nlong, list(range(min(T, 30) + 1)), 1.3))))
     out.append(("long_uniform", Seqn.from_values(rand_seq(rnd, nlong, list(range(min(T, 70) + 1))))))
@@ -198,6 +212,12 @@ def query_symbols(rnd, s, ty, k=4):
     else:
         cs += [0, 1, 3]
     cs += [T, T - 1, T // 2 + 1]
+    if T > (1 << 64):
+        # wider than a machine word: symbols whose low 64 (32) bits equal a present / absent symbol
+        base = used[:1] + used[-1:] if used else [0]
+        cs += [(1 << 64) + v for v in base] + [(1 << 64), (1 << 100) + (base[0] if base else 0)]
+    if T > (1 << 32):
+        cs += [(1 << 32) + (used[0] if used else 0)]
     out = []
     seen = set()
     for c in cs:
@@ -355,6 +375,13 @@ def quad_input_shapes(rnd, tier):
         x = rnd.randrange(4)
         y = (x + 1 + rnd.randrange(3)) % 4
         out.append(("occ%d" % c, Seqn.from_runs([([x, y], c // 2), ([y], 300), ([x], c - c // 2), ([y, y, x], 11)])))
+    # exactly 8192*m occurrences followed by whole superblocks without the symbol
+    for m in ([1] if tier == "quick" else [1, 2, 3]):
+        x = rnd.randrange(4)
+        y = (x + 1) % 4
+        z = (x + 2) % 4
+        out.append(("occ_gap%d" % m, Seqn.from_runs([([x], 8192 * m), ([y, z], rnd.choice([5000, 9000])), ([x], 2), ([z], 40)])))
+        out.append(("occ_gap_only%d" % m, Seqn.from_runs([([y], 100), ([x], 8192 * m), ([y, z, z], 4000)])))
     # one rare symbol among many; searched symbol absent from whole superblocks
     big = 40000 if tier == "quick" else 1200000
     r = rnd.randrange(4)
@@ -788,6 +815,14 @@ def camp_c12(rnd, tier):
     kinds = rotate(TREE_KINDS, rnd)
     types = rotate(UTYPES, rnd)
     # (every call word over {next, next_back, len} on short sequences is enumerated by TLC: Gen_it_*.cfg)
+    # default-constructed and empty trees: an empty iteration with len 0
+    b.reset()
+    for kind in TREE_KINDS:
+        for path in ("default", "from_vec"):
+            o = b.newt(kind, next(types), path, Seqn.from_values([]))
+            b.ith(o, "iter", "lnbl")
+            b.ith(o, "ref_into_iter", "bnl")
+            b.ith(o, "into_iter", "nlb", keep=1)
     # longer sequences, random histories
     for kind in TREE_KINDS:
         ty = next(types)
@@ -1032,12 +1067,15 @@ def camp_c09(rnd, tier):
     types = rotate(UTYPES, rnd)
     for kind in QUAD_PLAIN + QUAD_HUFF:
         huff = kind in QUAD_HUFF
-        for rep in range(1 if tier == "quick" else 3):
-            ty = next(types)
+        for rep in range(2 if tier == "quick" else 4):
+            ty = next(types) if rep > 0 else "u128"
             shapes = huff_input_shapes(rnd, tier, ty) if huff else tree_input_shapes(rnd, tier, ty)
             longs = [x for x in shapes if len(x[1]) > 4000]
             smalls = [x for x in shapes if len(x[1]) <= 4000]
-            for name, s in longs + rnd.sample(smalls, min(len(smalls), 8 if tier == "quick" else 30)):
+            picked = longs + rnd.sample(smalls, min(len(smalls), 8 if tier == "quick" else 30))
+            if rep == 0:
+                picked = rnd.sample(smalls, min(len(smalls), 5))
+            for name, s in picked:
                 b.reset()
                 o = b.newt(kind, ty, rnd.choice(["new", "from_vec", "collect"]), s)
                 n = len(s)
@@ -1374,6 +1412,11 @@ def camp_c04(rnd, tier):
                   ("set_bits", dict(a=[0, 2], w=[2])), ("set", dict(a=[-1, 0]))):
         x = b.conv(o, "clone")
         b.mut(x, m, **kw)
+    # operation histories on the mutable bit vector (within the documented preconditions)
+    for _ in range(8 if tier == "quick" else 40):
+        b.reset()
+        bvm_history(b, rnd, rnd.choice([4, 8]), tier)
+    b.reset()
     # a builder and vector of quads
     qb = b.newq("QB", "u8", "qb_new", Seqn.from_values([]))
     b.mut(qb, "qpush", a=[255])
